@@ -41,7 +41,8 @@ type World struct {
 	declOf map[*types.Func]*FuncInfo
 	funcs  []*FuncInfo
 
-	pkgFns map[string][]*ssa.Function // pkgSSAFuncs, by module-relative package path
+	callers map[*ssa.Function]map[*ssa.Function]bool
+	pkgFns  map[string][]*ssa.Function // pkgSSAFuncs, by module-relative package path
 }
 
 type FuncInfo struct {
